@@ -589,6 +589,8 @@ static Token *subst(Token *tok, MacroArg *args) {
 
     if (arg && equal(tok->next, "##")) {
       Token *rhs = tok->next->next;
+      if (rhs->kind == TK_EOF)
+        error_tok(tok->next, "'##' cannot appear at end of macro expansion");
 
       if (arg->tok->kind == TK_EOF) {
         MacroArg *arg2 = find_arg(args, rhs);
